@@ -197,29 +197,10 @@ struct Stack {
 fn gen_stack(st: u64, user: bool, scratch_dir: &std::path::Path) -> Stack {
     let mut r = Rng(st);
     let mut scratch = Sink::new("C11", &scratch_dir.join("scratch"), &[], 0, "quick");
+    // the case generator of C05 makes the second user lexicon (U-references that differ between split A, split B and word
+    // structure) as part of every user case
     let c = c05::gen_case(&mut r, &mut scratch, user, false, false);
-    let u2 = if user {
-        let ids = c.matrix.nl.min(c.matrix.nr) as i16;
-        let mut lex = c05::gen_lex(&mut r, &mut scratch, &c.pool, Some(&c.sys), ids, false, false);
-        // references from user words to user words of the same dictionary: these are the ones LexiconSet re-stamps
-        let n = lex.rows.len() as u64;
-        for row in lex.rows.iter_mut() {
-            if row.mode.trim() != "A" && row.mode.trim() != "a" {
-                match r.below(4) {
-                    0 if row.split_a.len() < 127 => row.split_a.push(c05::Ref::User(r.below(n) as u32)),
-                    1 if row.split_b.len() < 127 => row.split_b.push(c05::Ref::User(r.below(n) as u32)),
-                    _ => {}
-                }
-            }
-            if r.chance(1, 4) && row.word_structure.len() < 127 {
-                row.word_structure.push(c05::Ref::User(r.below(n) as u32));
-            }
-        }
-        let csv = c05::render_csv(&lex, &c.pool, &mut r, &mut scratch);
-        Some((lex, csv))
-    } else {
-        None
-    };
+    let u2 = c.user2.clone().map(|l| (l, c.user2_csv.clone()));
     Stack { c, u2 }
 }
 
@@ -747,6 +728,107 @@ fn sequence_level(sink: &mut Sink, rng: &mut Rng, n: usize) {
     }
 }
 
+// ---------------------------------------------------------------- lists filled by lookup, then split
+/// MorphemeList::empty(dict) -> lookup(query, subset) -> split_into(A / B): what Python's Dictionary.lookup(..) builds.
+/// lookup loads the entries with the subset it is given; the parts a split produces are loaded with the subset STORED in
+/// the list, which for a list that never received results is the default one, all fields (InfoSubset::default()).
+/// Promised, and checked: every field of `s` of every entry, and every field of `s` of every part, is what it is when
+/// everything is loaded; parts have the ranges and word ids of the full-field split.
+fn lookup_route_case(dict: &JapaneseDictionary, query: &str, s: u32, verbose: bool) -> (u32, Option<String>) {
+    use sudachi::analysis::mlist::MorphemeList;
+    type Item = (usize, usize, u32, Vec<String>);
+    let go = |sub: u32| -> Result<(u32, Vec<Item>, Vec<(String, usize, bool, Vec<Item>)>), String> {
+        match catch(|| {
+            let mut ml = MorphemeList::empty(dict);
+            let fresh_subset = ml.subset().bits();
+            let n = ml.lookup(query, InfoSubset::from_bits_truncate(sub)).map_err(|e| format!("{:?}", e))?;
+            let item = |x: &sudachi::analysis::morpheme::Morpheme<&JapaneseDictionary>| -> Item { (x.begin(), x.end(), x.word_id().as_raw(), accessors(&D2(x.get_word_info().clone()), s & !2)) };
+            let entries: Vec<Item> = (0..n).map(|i| item(&ml.get(i))).collect();
+            let mut splits = vec![];
+            for (bit, m, name) in [(64u32, Mode::A, "A"), (128u32, Mode::B, "B")] {
+                if s & bit == 0 {
+                    continue;
+                }
+                for i in 0..n {
+                    let mut out = MorphemeList::empty(dict);
+                    let did = ml.split_into(m, i, &mut out).map_err(|e| format!("{:?}", e))?;
+                    let parts: Vec<Item> = (0..out.len()).map(|j| item(&out.get(j))).collect();
+                    splits.push((name.to_string(), i, did, parts));
+                }
+            }
+            Ok((fresh_subset, entries, splits))
+        }) {
+            Ok(r) => r,
+            Err(p) => Err(format!("panic {}", p)),
+        }
+    };
+    let got = go(s);
+    // the expectation does not go through a MorphemeList: every word id is read with all fields straight from the lexicon,
+    // the parts of a split are the units of the entry's split list, laid end to end by their head-word lengths
+    let full = |wid: u32| -> Option<sudachi::dic::lexicon::word_infos::WordInfo> { get(dict, WordId::from_raw(wid), InfoSubset::all()).ok() };
+    if verbose {
+        println!("query {:?}, lookup subset {:#b}\n   with the subset: {:?}", query, s, got);
+    }
+    match got {
+        Ok((fs, ge, gs)) => {
+            for e in &ge {
+                let want = match full(e.2) {
+                    Some(w) => accessors(&D2(w), s & !2),
+                    None => continue,
+                };
+                if e.3 != want || e.0 != 0 || e.1 != query.len() {
+                    return (fs, Some(format!("lookup({:?}, {:#b}): entry {:?}, with all fields {:?}", query, s, e, want)));
+                }
+            }
+            for (name, i, did, parts) in &gs {
+                let ew = match full(ge[*i].2) {
+                    Some(w) => w,
+                    None => continue,
+                };
+                let units: Vec<u32> = if name == "A" { ew.a_unit_split().iter().map(|w| w.as_raw()).collect() } else { ew.b_unit_split().iter().map(|w| w.as_raw()).collect() };
+                let mut want: Vec<Item> = vec![];
+                let mut off = 0usize;
+                for (k, u) in units.iter().enumerate() {
+                    let w = match full(*u) {
+                        Some(w) => w,
+                        None => return (fs, None),
+                    };
+                    let end = if k + 1 == units.len() { query.len() } else { off + w.head_word_length() };
+                    want.push((off, end, *u, accessors(&D2(w), s & !2)));
+                    off = end;
+                }
+                if *did != !units.is_empty() || *parts != want {
+                    return (fs, Some(format!("lookup({:?}, {:#b}) then split_into({}) of entry {}: split happened {}, parts {:?}; the units of its split list with all fields: {:?}", query, s, name, i, did, parts, want)));
+                }
+            }
+            (fs, None)
+        }
+        Err(e) => (0, Some(format!("lookup({:?}, {:#b}) and split fail: {}", query, s, e))),
+    }
+}
+
+fn lookup_level(sink: &mut Sink, rng: &mut Rng, n: usize) {
+    let dict = match shipped_stack(false) {
+        Ok(d) => d,
+        Err(_) => return,
+    };
+    let queries = ["東京都", "東京府", "東京都京都", "東京都京都に", "京都東京", "京都", "東京", "に", "すだち", "行く", "特急はくたか", "ない語"];
+    for k in 0..n {
+        let q = if k < queries.len() * 4 { queries[k % queries.len()] } else { *rng.pick(&queries) };
+        // the split field of one or both modes (else nothing can be split), and any other fields
+        let s = (match rng.below(3) { 0 => 64, 1 => 128, _ => 192 }) | match rng.below(5) { 0 => 0, 1 => 1, 2 => 1 | 4 | 8, 3 => 1023, _ => rng.below(1024) as u32 };
+        let desc = json!({"kind": "c11-lookup", "query": q, "subset": s});
+        let (fresh, bad) = lookup_route_case(&dict, q, s, false);
+        sink.tag("lookup_then_split");
+        // model: a list that never received results holds the default subset, all fields (Generated/FieldOrder.v checks the
+        // Default impl); lookup does not change it
+        let id = sink.case(format!("N.eqb {} ALL", cn(fresh)), desc, true);
+        if let Some(b) = bad {
+            sink.fail(id, &b, "");
+        }
+    }
+}
+
 pub fn run(args: &Args) {
     let mut sink = Sink::new("C11", &args.out, &["Model.Codec", "Model.CodecIO", "Model.CodecCheck"], args.seed, &args.tier);
     sink.shard_size = 12;
@@ -763,6 +845,10 @@ pub fn run(args: &Args) {
             println!("full fields        : {:?}", analyse(&dict, text, mode_of(m0), mode_of(m), None, 0, s));
             println!("set_mode;set_subset: {:?}", analyse(&dict, text, mode_of(m0), mode_of(m), Some(s), 0, s));
             println!("set_subset;set_mode: {:?}", analyse(&dict, text, mode_of(m0), mode_of(m), Some(s), 1, s));
+        } else if case["kind"] == "c11-lookup" {
+            let dict = shipped_stack(false).unwrap();
+            let (_, bad) = lookup_route_case(&dict, case["query"].as_str().unwrap(), case["subset"].as_u64().unwrap() as u32, true);
+            println!("verdict: {:?}", bad);
         } else if case["kind"] == "c11-seq" {
             let rw = case["rewrite"].as_bool().unwrap();
             let dict = shipped_stack(rw).unwrap();
@@ -806,5 +892,6 @@ pub fn run(args: &Args) {
     word_level(&mut sink, &mut rng, args.n(26, 300), args.n(40, 400));
     tokenizer_level(&mut sink, &mut rng, args.n(400, 6000));
     sequence_level(&mut sink, &mut rng, args.n(300, 4000));
+    lookup_level(&mut sink, &mut rng, args.n(120, 1500));
     sink.finish();
 }
